@@ -3,3 +3,5 @@ import MinterProofs.Moves
 import MinterProofs.Props.C01
 import MinterProofs.Props.C04
 import MinterProofs.Props.C05
+import MinterProofs.Props.C13
+import MinterProofs.Props.C08
